@@ -81,6 +81,15 @@ Definition maupiti_requant (p : nat) (scale addb sumw : Z) (sh : nat) (acc' : Q)
   let z := pow2 (p - 1) in
   zclip (Qfloor (requant_pre scale (zero_point z scale addb sumw sh) sh acc')) (- z) (z - 1).
 Definition maupiti_pad_value (p : nat) : Z := (- pow2 (p - 1))%Z.
+(* repaired code: the offset of the incoming activations comes from the INPUT precision (in_offset), the 2^shift term
+   and the clip from the output precision; `zero_point` / `maupiti_requant` above are the pinned upstream form, which
+   took both from the output precision (the two coincide when the precisions agree); the padding value is
+   maupiti_pad_value p_in *)
+Definition zero_point2 (z_in z_out scale addb sumw : Z) (sh : nat) : Z :=
+  (addb + (- z_out) * pow2 sh - (- z_in) * scale * sumw)%Z.
+Definition maupiti_requant2 (p_in p_out : nat) (scale addb sumw : Z) (sh : nat) (acc' : Q) : Z :=
+  let zi := pow2 (p_in - 1) in let zo := pow2 (p_out - 1) in
+  zclip (Qfloor (requant_pre scale (zero_point2 zi zo scale addb sumw sh) sh acc')) (- zo) (zo - 1).
 (* last layers.  MATCH: acc + int_bias (to be multiplied by s_x*s_w outside);  MAUPITI Linear: no floor, no clip,
    clip_inf = -2^(p_in-1), zero point without the 2^shift term *)
 Definition match_last (B : Z) (acc : Q) : Q := acc + inject_Z B.
@@ -120,6 +129,10 @@ Definition run_match (p : nat) (sh : nat) (chans : list (Z * Z * list Q)) : list
   map (fun c => match c with (scale, addb, accs) => map (match_requant p scale addb sh) accs end) chans.
 Definition run_maupiti (p : nat) (sh : nat) (chans : list (Z * Z * Z * list Q)) : list (list Z) :=
   map (fun c => match c with (scale, addb, sumw, accs) => map (maupiti_requant p scale addb sumw sh) accs end) chans.
+Definition run_maupiti2 (p_in p_out : nat) (sh : nat) (chans : list (Z * Z * Z * list Q)) : list (list Z) :=
+  map (fun c => match c with (scale, addb, sumw, accs) => map (maupiti_requant2 p_in p_out scale addb sumw sh) accs end) chans.
+Definition run_zero_point2 (z_in z_out : Z) (sh : nat) (chans : list (Z * Z * Z)) : list Z :=
+  map (fun c => match c with (scale, addb, sumw) => zero_point2 z_in z_out scale addb sumw sh end) chans.
 Definition run_zero_point (z : Z) (sh : nat) (chans : list (Z * Z * Z)) : list Z :=
   map (fun c => match c with (scale, addb, sumw) => zero_point z scale addb sumw sh end) chans.
 Definition run_zero_point_last (z : Z) (chans : list (Z * Z * Z)) : list Z :=
